@@ -16,6 +16,7 @@ import (
 	"net"
 	"net/http"
 	"sort"
+	"strconv"
 	"strings"
 	"sync"
 	"time"
@@ -73,7 +74,8 @@ type Fake struct {
 	calls    map[string]int
 
 	// Hook is consulted before every call; a non-nil result is returned to the caller instead.
-	Hook func(ci *CallInfo) *AppError
+	Hook   func(ci *CallInfo) *AppError
+	casCtr uint64
 	// MemcacheLimit is the largest value memcache accepts (real limit: 1 MiB - 96 bytes).
 	MemcacheLimit int
 
@@ -82,8 +84,43 @@ type Fake struct {
 }
 
 type memItem struct {
-	value []byte
-	flags uint32
+	value   []byte
+	flags   uint32
+	expires time.Time // zero: never
+	cas     uint64
+}
+
+// MemcacheAge makes every memcache entry look d older (entries with an expiry that has then passed disappear).
+func (f *Fake) MemcacheAge(d time.Duration) {
+	f.mu.Lock()
+	defer f.mu.Unlock()
+	for k, it := range f.mem {
+		if !it.expires.IsZero() {
+			it.expires = it.expires.Add(-d)
+			f.mem[k] = it
+		}
+	}
+}
+
+// memLookup returns a live entry (expired ones are dropped).
+func (f *Fake) memLookup(key string) (memItem, bool) {
+	it, ok := f.mem[key]
+	if ok && !it.expires.IsZero() && !time.Now().Before(it.expires) {
+		delete(f.mem, key)
+		return memItem{}, false
+	}
+	return it, ok
+}
+
+func memExpiry(secs uint64) time.Time {
+	switch {
+	case secs == 0:
+		return time.Time{}
+	case secs <= 30*24*3600:
+		return time.Now().Add(time.Duration(secs) * time.Second)
+	default:
+		return time.Unix(int64(secs), 0)
+	}
 }
 
 func New() *Fake {
@@ -371,6 +408,11 @@ func (f *Fake) Call(service, method string, req []byte, ticket string) ([]byte, 
 		return f.memSet(req)
 	case "memcache.Delete":
 		return f.memDelete(req)
+	case "memcache.Increment":
+		return f.memIncrement(req)
+	case "memcache.FlushAll":
+		f.mem = map[string]memItem{}
+		return nil, nil
 	case "user.GetOAuthUser":
 		return f.oauthUser(ticket)
 	}
@@ -649,16 +691,26 @@ func (f *Fake) memGet(req []byte) ([]byte, *AppError) {
 		return nil, &AppError{1, err.Error()}
 	}
 	var out []byte
+	forCAS := false
+	for _, x := range fs {
+		if x.num == 4 && x.v != 0 {
+			forCAS = true
+		}
+	}
 	for _, x := range fs {
 		if x.num != 1 {
 			continue
 		}
-		if it, ok := f.mem[string(x.b)]; ok {
+		if it, ok := f.memLookup(string(x.b)); ok {
 			var g []byte
 			g = appendBytes(g, 2, x.b)
 			g = appendBytes(g, 3, it.value)
 			g = protowire.AppendTag(g, 4, protowire.Fixed32Type)
 			g = protowire.AppendFixed32(g, it.flags)
+			if forCAS {
+				g = protowire.AppendTag(g, 5, protowire.Fixed64Type)
+				g = protowire.AppendFixed64(g, it.cas)
+			}
 			out = appendGroup(out, 1, g)
 		}
 	}
@@ -678,6 +730,7 @@ func (f *Fake) memSet(req []byte) ([]byte, *AppError) {
 		ifs, _ := parse(x.b)
 		var key string
 		var it memItem
+		policy, casID := uint64(1), uint64(0)
 		for _, i := range ifs {
 			switch i.num {
 			case 2:
@@ -686,12 +739,29 @@ func (f *Fake) memSet(req []byte) ([]byte, *AppError) {
 				it.value = append([]byte(nil), i.b...)
 			case 4:
 				it.flags = uint32(i.v)
+			case 5:
+				policy = i.v
+			case 6:
+				it.expires = memExpiry(i.v)
+			case 8:
+				casID = i.v
 			}
 		}
 		if len(it.value) > f.MemcacheLimit || len(key) > 250 {
 			out = appendVarint(out, 1, 3) // ERROR
 			continue
 		}
+		old, exists := f.memLookup(key)
+		switch {
+		case policy == 2 && exists, policy == 3 && !exists, policy == 4 && !exists: // ADD / REPLACE / CAS
+			out = appendVarint(out, 1, 2) // NOT_STORED
+			continue
+		case policy == 4 && old.cas != casID:
+			out = appendVarint(out, 1, 4) // EXISTS
+			continue
+		}
+		f.casCtr++
+		it.cas = f.casCtr
 		f.mem[key] = it
 		out = appendVarint(out, 1, 1) // STORED
 	}
@@ -711,7 +781,7 @@ func (f *Fake) memDelete(req []byte) ([]byte, *AppError) {
 		ifs, _ := parse(x.b)
 		for _, i := range ifs {
 			if i.num == 2 {
-				if _, ok := f.mem[string(i.b)]; ok {
+				if _, ok := f.memLookup(string(i.b)); ok {
 					delete(f.mem, string(i.b))
 					out = appendVarint(out, 1, 1) // DELETED
 				} else {
@@ -721,6 +791,62 @@ func (f *Fake) memDelete(req []byte) ([]byte, *AppError) {
 		}
 	}
 	return out, nil
+}
+
+// memIncrement: decimal counters as memcache keeps them (the value is the ASCII representation).
+func (f *Fake) memIncrement(req []byte) ([]byte, *AppError) {
+	fs, err := parse(req)
+	if err != nil {
+		return nil, &AppError{1, err.Error()}
+	}
+	var key string
+	delta, dir := uint64(1), uint64(1)
+	var initial *uint64
+	var flags uint32
+	for _, x := range fs {
+		switch x.num {
+		case 1:
+			key = string(x.b)
+		case 2:
+			delta = x.v
+		case 3:
+			dir = x.v
+		case 5:
+			v := x.v
+			initial = &v
+		case 6:
+			flags = uint32(x.v)
+		}
+	}
+	it, ok := f.memLookup(key)
+	var cur uint64
+	if ok {
+		n, perr := strconv.ParseUint(strings.TrimSpace(string(it.value)), 10, 64)
+		if perr != nil {
+			return appendVarint(nil, 2, 3), nil // ERROR: not a number
+		}
+		cur = n
+	} else if initial != nil {
+		cur = *initial
+		it.flags = flags
+	} else {
+		return appendVarint(nil, 2, 2), nil // NOT_CHANGED: no such key
+	}
+	if dir == 2 {
+		if delta > cur {
+			cur = 0
+		} else {
+			cur -= delta
+		}
+	} else {
+		cur += delta
+	}
+	it.value = []byte(strconv.FormatUint(cur, 10))
+	f.casCtr++
+	it.cas = f.casCtr
+	f.mem[key] = it
+	out := appendVarint(nil, 1, cur)
+	return appendVarint(out, 2, 1), nil
 }
 
 // Ticket encodes the identity the platform front end established for a request:
